@@ -260,7 +260,7 @@ func c02Compare(got align.Alignment, want rows, wantAlphabet int) (clause, desc 
 //	rt:    Rows written in each variant of Vs (empty: all twelve) that can represent it, parsed by the format's parser
 //	       and, unless Direct, by ParseAlignmentAuto and by ParseMultiAlignmentsAuto
 //	multi: List written one after the other in Phylip variant V, parsed by ParseMultiple and ParseMultiAlignmentsAuto
-//	file:  Rows written in variant V to a file with extension Ext through OpenWriteFile, read through GetReader / ReadAlign
+//	file:  Rows written in variant V to a file with extension Ext through OpenWriteFile (over an existing, longer file), read through GetReader / ReadAlign
 //	chain: Rows converted through the variants Chain in turn
 type c02Case struct {
 	Kind   string `json:"kind"`
@@ -329,11 +329,52 @@ func (k *c02Checker) build(r rows) (al align.Alignment, ok bool) {
 		k.c.Fatal("cannot build the original of case %s: %v", jsonStr(k.cs), err)
 		return nil, false
 	}
+	// the residues of one alphabet are detected as that alphabet (the statement quantifies over "nucleotide and
+	// protein IUPAC residues in both cases"): only rows that fit neither alphabet by the harness's own letter
+	// sets have no detected alphabet and are skipped
+	want := c02ExpectedAlphabet(r)
+	if a := al.Alphabet(); a != want {
+		k.c.Violation("C02/alphabet-detection/"+c02AlphabetName(want)+"-read-as-"+c02AlphabetName(a),
+			fmt.Sprintf("rows %v hold %s residues only but the detected alphabet is %s", r, c02AlphabetName(want), c02AlphabetName(a)), c02Case{Kind: "rt", Rows: r, Direct: k.cs.Direct})
+		return nil, false
+	}
 	if a := al.Alphabet(); a != align.NUCLEOTIDS && a != align.AMINOACIDS {
 		k.c.Skip(c02SkipAlphabet)
 		return nil, false
 	}
 	return al, true
+}
+
+// c02ExpectedAlphabet: nucleotides when every residue is an IUPAC nucleotide code (U and O included, as
+// goalign documents), a gap, '.', '*' or '?', in either case; else amino acids when every residue is one of the
+// 20 amino acids, B, Z, X or one of those symbols; else unknown.
+func c02ExpectedAlphabet(r rows) int {
+	const shared = "ACBRGDKSHMNVXTWY?-.*"
+	nt, aa := true, true
+	for _, x := range r {
+		for i := 0; i < len(x.Seq); i++ {
+			b := x.Seq[i]
+			if 'a' <= b && b <= 'z' {
+				b -= 'a' - 'A'
+			}
+			switch {
+			case strings.IndexByte(shared, b) >= 0:
+			case b == 'U' || b == 'O':
+				aa = false
+			case strings.IndexByte("QEILFPZ", b) >= 0:
+				nt = false
+			default:
+				nt, aa = false, false
+			}
+		}
+	}
+	switch {
+	case nt:
+		return align.NUCLEOTIDS
+	case aa:
+		return align.AMINOACIDS
+	}
+	return align.UNKNOWN
 }
 
 // judge compares one parse result with the original.
@@ -580,6 +621,10 @@ func (k *c02Checker) fileMulti() {
 	var werr error
 	if !k.call(op, v, "", cs, func() {
 		var f utils.StringWriterCloser
+		// the output file exists already and is longer than what is written now (goalign -o over an old result)
+		if werr = os.WriteFile(path, []byte(strings.Repeat(">stale\nACGTACGTAC\n", 3*len(als)+40)), 0o644); werr != nil {
+			return
+		}
 		if f, werr = utils.OpenWriteFile(path); werr != nil {
 			return
 		}
@@ -680,6 +725,10 @@ func (k *c02Checker) file() {
 	if !k.call(op, v, class, cs, func() {
 		text := c02Write(v, al)
 		var f utils.StringWriterCloser
+		// the output file exists already and is longer than what is written now (goalign -o over an old result)
+		if werr = os.WriteFile(path, []byte(text+text+">stale\nACGTACGTAC\n"), 0o644); werr != nil {
+			return
+		}
 		if f, werr = utils.OpenWriteFile(path); werr != nil {
 			return
 		}
@@ -1363,7 +1412,7 @@ func init() {
 			"(d) streams: every list of 1-3 (thorough 1-4) alignments out of 6 shapes (1x1, 2x10, 1x60, 2x61, 3x121, 2x5) written consecutively in each of the 8 Phylip configurations, read by phylip.Parser.ParseMultiple and by ParseMultiAlignmentsAuto; " +
 			"(f') streams in files: every list of 1-3 alignments out of {2x10, 2x61, 2x4200} written with one WriteString per alignment into a plain, .gz and .xz file in each of the 8 Phylip configurations, read through GetReader + ParseMultiple; (f) files: the 1-3-row shape corpus and 2 rows x lengths 4097, 8200, 20000 x 12 configurations x extensions '', .gz, .xz written through utils.OpenWriteFile into a private temporary directory and read through GetReader + parser, ReadAlign (non-strict, not Stockholm) and GetReader + ParseMultiAlignmentsAuto; " +
 			"(g) chains: every sequence of 1-3 configurations (12+144+1728) applied in turn (write, parse, write the parsed alignment, ...) to the 2-row shapes of 12 lengths (thorough: 1-3 rows, 32 lengths), the alignment compared with the original after every step. " +
-			"Alignments whose alphabet goalign detects as neither nucleotide nor protein are skipped. An alignment is non-trivial when at least one configuration can represent it; distinct = distinct (names, rows).",
+			"The alphabet detected for the original must be the one of the harness's own letter sets (nucleotide codes incl. U/O; the 20 amino acids, B, Z, X; shared symbols - . * ?; either case); alignments that fit neither are skipped. An alignment is non-trivial when at least one configuration can represent it; distinct = distinct (names, rows).",
 		Assumptions: []string{
 			"the original is built through AddSequence and AutoAlphabet, the way every parser builds its result; 'detected alphabet' is Alphabet() after that",
 			"representability is decided from the formats' delimiters only; a name or row that spells a keyword of the format (DATA, END, CLUSTAL, STOCKHOLM ...) is representable",
